@@ -50,6 +50,12 @@ CORPUS = [
                {"kind": "T", "start": 0, "steps": [5 * sc.DAY], "initpull": False, "nout": 0,
                 "inputs": [{"src": [1, 0], "chain": [["fixed", 3 * sc.DAY]]}, {"src": [1, 1], "chain": []}]}],
      "end": 12 * sc.DAY},
+    # ONE output of a pull-based component read twice by one consumer, the delayed link declared first
+    {"comps": [{"kind": "T", "start": 0, "steps": [sc.DAY], "initpull": False, "nout": 1, "inputs": []},
+               {"kind": "P", "nout": 1, "inputs": [{"src": [0, 0], "chain": []}]},
+               {"kind": "T", "start": 0, "steps": [5 * sc.DAY], "initpull": False, "nout": 0,
+                "inputs": [{"src": [1, 0], "chain": [["fixed", 5 * sc.DAY]]}, {"src": [1, 0], "chain": []}]}],
+     "end": 12 * sc.DAY},
     # F16 (known): a pull-based component read by two consumers with different steps
     {"comps": [{"kind": "T", "start": 0, "steps": [7], "initpull": False, "nout": 1, "inputs": []},
                {"kind": "P", "nout": 1, "inputs": [{"src": [0, 0], "chain": []}]},
